@@ -7,7 +7,7 @@ let z_of_string s =
   let neg = String.length s > 0 && s.[0] = '-' in
   let start = if neg then 1 else 0 in
   let n = String.length s in
-  if n - start <= 17 then z_of_small (int_of_string s) else begin
+  if n - start <= 17 then z_of_small (Stdlib.int_of_string s) else begin
     let acc = ref Z0 in
     for i = start to n - 1 do
       acc := Z.add (Z.mul !acc z10) (z_of_small (Char.code s.[i] - 48))
@@ -16,7 +16,7 @@ let z_of_string s =
 let rec int_of_pos p = match p with XH -> 1 | XO q -> 2 * int_of_pos q | XI q -> 2 * int_of_pos q + 1
 let rec pos_bits p = match p with XH -> 1 | XO q -> 1 + pos_bits q | XI q -> 1 + pos_bits q
 let string_of_pos p =
-  if pos_bits p <= 60 then string_of_int (int_of_pos p) else begin
+  if pos_bits p <= 60 then Stdlib.string_of_int (int_of_pos p) else begin
     (* big: repeated division by 10 using extracted Z *)
     let buf = Buffer.create 32 in
     let cur = ref (Zpos p) in
@@ -37,14 +37,14 @@ let parse_line (s : string) : sx =
   let rec skip () = if !i < n && (s.[!i] = ' ' || s.[!i] = '\t' || s.[!i] = '\r') then (incr i; skip ()) in
   let rec item () : sx =
     skip ();
-    if !i >= n then failwith "eof" else
+    if !i >= n then Stdlib.failwith "eof" else
     if s.[!i] = '(' then begin
       incr i;
       let acc = ref [] in
       let fin = ref false in
       while not !fin do
         skip ();
-        if !i >= n then failwith "unbalanced"
+        if !i >= n then Stdlib.failwith "unbalanced"
         else if s.[!i] = ')' then (incr i; fin := true)
         else acc := item () :: !acc
       done;
@@ -65,11 +65,11 @@ let () =
   let buf = Buffer.create 65536 in
   (try
     while true do
-      let line = input_line stdin in
+      let line = Stdlib.input_line Stdlib.stdin in
       if String.length line > 0 then begin
         let r = (try model_main (parse_line line) with Stack_overflow -> L [A (z_of_small (-99))]) in
         Buffer.clear buf; print_sx buf r; Buffer.add_char buf '\n';
-        print_string (Buffer.contents buf) end
+        Stdlib.print_string (Buffer.contents buf) end
     done
   with End_of_file -> ());
-  flush stdout
+  Stdlib.flush Stdlib.stdout
